@@ -28,12 +28,16 @@ open Mdsort
 def contentTypeName : Bytes := ofString "Content-Type"
 def cteName : Bytes := ofString "Content-Transfer-Encoding"
 
+/-- `strncasecmp(s, p, strlen(p)) == 0` for a literal `p` (no NUL): the first `|p|` bytes of `s` equal `p` up to ASCII
+letter case (/repo 098cbec; a shorter `s` differs at its terminator). -/
+def startsWithCI (s p : Bytes) : Bool := (s.take p.length).map tolower == p.map tolower
+
 /-- `message_is_content_type(msg, needle)`. -/
 def isContentType (m : Msg) (needle : Bytes) : Bool :=
   match getHeader1 m contentTypeName with
   | none => false
   | some t =>
-    startsWith t needle &&
+    startsWithCI t needle &&
       (match t.drop needle.length with
        | [] => true
        | c :: _ => c == 59)
@@ -47,7 +51,7 @@ deriving Repr, DecidableEq
 
 def parseBoundary (t : Bytes) : Boundary :=
   let mp := ofString "multipart/"
-  if !startsWith t mp then .notMultipart
+  if !startsWithCI t mp then .notMultipart
   else
     let s := (t.drop mp.length).dropWhile (fun c => c != 59)
     match s with
@@ -55,7 +59,7 @@ def parseBoundary (t : Bytes) : Boundary :=
     | _ :: s1 =>
       let s2 := s1.drop (nspaces s1)
       let needle := ofString "boundary=\""
-      if !startsWith s2 needle then .notMultipart
+      if !startsWithCI s2 needle then .notMultipart
       else
         let s3 := s2.drop needle.length
         let b := s3.takeWhile (fun c => c != 34)
@@ -160,8 +164,8 @@ def getAttachments (m : Msg) : Option (List Msg) := parseAttachments (Gen.mimeDe
 def decodeBody (part : Msg) : Option Bytes :=
   match getHeader1 part cteName with
   | some enc =>
-    if enc == ofString "base64" then base64Decode part.body
-    else if enc == ofString "quoted-printable" then some (qpDecode part.body)
+    if strcasecmp enc (ofString "base64") == .eq then base64Decode part.body
+    else if strcasecmp enc (ofString "quoted-printable") == .eq then some (qpDecode part.body)
     else some part.body
   | none => some part.body
 
